@@ -444,3 +444,6 @@ def run_case(r, obs):
             got = list(lena.core.Sequence(lena.core.Sequence(), lena.core.Sequence(
                 lena.core.Sequence())).run(xs))
             obs.check(got == xs, "empty-sequence-not-identity", "nested empty sequences")
+
+
+RULE += (' Elements also include user subclasses of Sequence that override run (reversing / terminating their output).')
